@@ -272,6 +272,18 @@ def sec_roundtrip(res, drv, rng, tier, n):
     cases.append(('info', 'n' * 255, b'\x01\x02\x03\x04'))
     cases.append(('subscribe', 'i' * 255, 'c' * 255))
     cases.append(('unsubscribe', '\u00e9' * 127 + 'x', 'c' * 255))
+    # "any Unicode": names that are legal but not in a normal form, or that a tidy-minded reader might fold - decomposed
+    # accents, compatibility code points, Hangul jamo, case, blanks and line ends, a BOM: they come back code point for
+    # code point
+    odd = ['cafe\u0301', '\u212b', '\u2126x', '\u1100\u1161', 'e\u0301\u0323', '\ufb01', ' lead', 'trail ', 'a\r\nb', 'MiXeD', '\ufeffbom', 'a\u200bb']
+    for i, t in enumerate(odd):
+        t2 = odd[(i + 5) % len(odd)]
+        cases.append(('publish', t, t2, b'p'))
+        cases.append(('subscribe', t2, t))
+        cases.append(('info', t, b'\x01\x02\x03\x04'))
+        cases.append(('error', t + t2))
+        cases.append(('auth', t, bytes(range(20))))
+        cases.append(('unsubscribe', t, t2))
     for m in cases:
         res.evaluations += 1
         script = {'section': 'roundtrip', 'msg': [m[0]] + [x if isinstance(x, str) else hexin(x) for x in m[1:]]}
@@ -513,7 +525,7 @@ def sec_chunking(res, drv, rng, tier, n):
     # bursts: MANY complete small frames available in ONE feed (a coalesced read after a stall): each must be yielded by
     # the drain that follows that feed - 129 ... several thousand, beyond any per-pass batch size
     pb = side_rng(rng, 'burst')
-    for count in ([129, 257, 1000] if tier == 'quick' else [129, 200, 257, 513, 1025, 4097, 20000]):
+    for count in ([129, 257, 1000, 5000] if tier == 'quick' else [129, 200, 257, 513, 1025, 4097, 20000, 70000]):
         fs = [pb.choice([(3, b'\x01a\x01c' + bytes([i & 255])), (0, b'e'), (4, b'\x01ac'), (3, b'')]) for i in range(count)]
         tail = pb.choice([b'', b'\x00\x00', b'\x00\x00\x00\x09\x03'])
         stream = b''.join(enc(op, b) for op, b in fs) + tail
@@ -642,6 +654,16 @@ def sec_lattice(res, drv, rng, tier, n):
                     script = {'section': 'lattice', 'op': op, 'ml': ml, 'prefix': hexin(pre), 'chunks': [hexin(c) for c in chunks]}
                     run_arbitrary(res, drv, chunks, script)
                     count += 1
+    # COMPLETE frames just above the small per-opcode limits (OP_INFO / OP_AUTH: 281 bytes), whole in one chunk, alone and
+    # behind a valid frame: the length is checked when the header is examined, however much of the body is already there
+    for op in (1, 2):
+        lim = limit(op)
+        for ml in (lim + 1, lim + 2, lim + 19, 2 * lim, 4096):
+            frame = struct.pack('!iB', ml, op) + b'\x01a' + b'z' * (ml - 7)
+            for chunks in ([frame], [prefixes[0] + frame], [frame + prefixes[0]], [frame[:5], frame[5:]]):
+                script = {'section': 'lattice', 'op': op, 'ml': ml, 'whole': True, 'chunks': [hexin(c) for c in chunks]}
+                run_arbitrary(res, drv, chunks, script)
+                count += 1
     # ... and complete, VALID frames of the opcodes without an entry in the size table (SUBSCRIBE / UNSUBSCRIBE), larger
     # than the small limits, behind OP_INFO / OP_AUTH
     for pre in prefixes[1:3]:
